@@ -419,22 +419,38 @@ impl<'a> Binder<'a> {
                     rows.push(exprs?);
                 }
 
-                // Infer schema from first row
-                let schema = if let Some(first_row) = rows.first() {
-                    let fields: Vec<SchemaField> = first_row
-                        .iter()
-                        .enumerate()
-                        .map(|(i, e)| {
-                            let dt = e
+                let width = rows.first().map_or(0, |row| row.len());
+                if rows.iter().any(|row| row.len() != width) {
+                    return Err(QueryError::Bind(
+                        "VALUES lists must all be the same length".into(),
+                    ));
+                }
+
+                // A column takes the type of its first cell that has one: a
+                // NULL literal is untyped, so `(NULL), (1)` is an integer
+                // column. Later numeric cells only widen it (`(1), (2.5)`). A
+                // column of nothing but NULLs is text: COUNT over a Null-typed
+                // array counts its rows.
+                let fields: Vec<SchemaField> = (0..width)
+                    .map(|i| {
+                        let mut dt = ArrowDataType::Null;
+                        for row in &rows {
+                            let cell = row[i]
                                 .data_type(&PlanSchema::empty())
                                 .unwrap_or(ArrowDataType::Utf8);
-                            SchemaField::new(format!("column{}", i), dt)
-                        })
-                        .collect();
-                    PlanSchema::new(fields)
-                } else {
-                    PlanSchema::empty()
-                };
+                            if dt == ArrowDataType::Null {
+                                dt = cell;
+                            } else if dt != cell && dt.is_numeric() && cell.is_numeric() {
+                                dt = super::logical_expr::coerce_numeric_types(&dt, &cell);
+                            }
+                        }
+                        if dt == ArrowDataType::Null {
+                            dt = ArrowDataType::Utf8;
+                        }
+                        SchemaField::new(format!("column{}", i), dt)
+                    })
+                    .collect();
+                let schema = PlanSchema::new(fields);
 
                 Ok(LogicalPlan::Values(crate::planner::ValuesNode {
                     values: rows,
@@ -1152,11 +1168,52 @@ impl<'a> Binder<'a> {
             TableFactor::Derived {
                 subquery, alias, ..
             } => {
-                let plan = self.bind_query(subquery)?;
+                let mut plan = self.bind_query(subquery)?;
                 let alias_name = alias
                     .as_ref()
                     .map(|a| a.name.value.clone())
                     .unwrap_or_else(|| "subquery".to_string());
+
+                // `AS v(x, y)` renames the leading output columns.
+                let renames = alias.as_ref().map_or(&[][..], |a| &a.columns[..]);
+                if !renames.is_empty() {
+                    let input_schema = plan.schema();
+                    if renames.len() > input_schema.fields().len() {
+                        return Err(QueryError::Bind(format!(
+                            "table \"{}\" has {} columns available but {} columns specified",
+                            alias_name,
+                            input_schema.fields().len(),
+                            renames.len()
+                        )));
+                    }
+                    let (exprs, fields): (Vec<Expr>, Vec<SchemaField>) = input_schema
+                        .fields()
+                        .iter()
+                        .enumerate()
+                        .map(|(i, f)| {
+                            let name = renames
+                                .get(i)
+                                .map_or_else(|| f.name.clone(), |r| r.name.value.clone());
+                            let column = Expr::Column(Column {
+                                relation: f.relation.clone(),
+                                name: f.name.clone(),
+                            });
+                            (
+                                Expr::Alias {
+                                    expr: Box::new(column),
+                                    name: name.clone(),
+                                },
+                                SchemaField::new(name, f.data_type.clone())
+                                    .with_nullable(f.nullable),
+                            )
+                        })
+                        .unzip();
+                    plan = LogicalPlan::Project(ProjectNode {
+                        input: Arc::new(plan),
+                        exprs,
+                        schema: PlanSchema::new(fields),
+                    });
+                }
 
                 let schema = plan.schema();
                 let aliased_schema = PlanSchema::new(
